@@ -28,21 +28,27 @@ def main():
     checks = [pid]
     tier = "quick"
     name = pid
+    phase = "both"
     args = sys.argv[3:]
     while args:
         a = args.pop(0)
         if a == "--checks": checks = args.pop(0).split(",")
         elif a == "--tier": tier = args.pop(0)
         elif a == "--name": name = args.pop(0)
+        elif a == "--phase": phase = args.pop(0)   # confirm | check | both (the confirm phases of several changes can run side by side)
     patch = os.path.abspath(os.path.join(src, "patch.diff"))
     demo = os.path.join(src, "demo.rs")
     meta = {"property": pid, "source_dir": src, "when": time.strftime("%Y-%m-%d %H:%M:%S")}
+    dst = os.path.join("/verif/seeded", name)
+    if phase == "check":
+        meta = json.load(open(os.path.join(dst, "meta.json")))
     wt = "/tmp/sv-%s" % name.lower()
-    sh("git -C /repo worktree remove --force %s" % wt)
-    rc, out = sh("git -C /repo worktree add %s HEAD" % wt)
-    if rc != 0:
+    if phase != "check":
+      sh("git -C /repo worktree remove --force %s" % wt)
+      rc, out = sh("git -C /repo worktree add %s HEAD" % wt)
+      if rc != 0:
         print(out); sys.exit(2)
-    try:
+      try:
         shutil.copy(demo, os.path.join(wt, "tests", "seed_demo.rs"))
         rc0, out0 = sh("cargo test --offline --test seed_demo 2>&1 | tail -15", cwd=wt)
         p0, f0 = test_counts(out0)
@@ -61,12 +67,14 @@ def main():
         p2, f2 = test_counts(out2)
         meta["suite_with_patch"] = {"passed": p2, "failed": f2}
         meta["confirmed"] = bool(p0 > 0 and f0 == 0 and f1 > 0 and p2 == 382 and f2 == 0)
-    finally:
+      finally:
         sh("git -C /repo worktree remove --force %s" % wt)
     # run the checks against /repo with the patch applied
     results = {}
     rc, out = sh("git -C /repo status --porcelain")
-    if out.strip():
+    if phase == "confirm":
+        results = meta.get("checks", {})
+    elif out.strip():
         meta["error"] = "/repo has uncommitted changes; refusing to apply"
     else:
         # the checks run from a snapshot of /verif (own build directory), so that work on the harness can go on meanwhile
